@@ -26,13 +26,13 @@ LEVEL = "model_checking"
 
 SHAPES = {
     "quick":    {"DMax": "3", "DMax6": "2", "DIdx": "3"},
-    "thorough": {"DMax": "4", "DMax6": "3", "DIdx": "3"},
+    "thorough": {"DMax": "4", "DMax6": "3", "DIdx": "4"},
 }
 TERM = {
-    "quick":    {"N3": "2000", "BMin": "6000"},
-    "thorough": {"N3": "0", "BMin": "6000"},
+    "quick":    {"N3": "2000", "N4": "300", "BMin": "6000"},
+    "thorough": {"N3": "0", "N4": "20000", "BMin": "6000"},
 }
-N_OPS = 83     # entry points bound in Shapes.tla (vacuity: every one must occur, accepted and rejected)
+N_OPS = 110    # entry points bound in Shapes.tla (vacuity: every one must occur, accepted and rejected)
 
 
 # ----------------------------------------------------------------------------- part A
@@ -50,7 +50,7 @@ def run_shapes(ctx, binary, cases, tag="shapes", only=None):
         elif r["kind"] == "mismatch":
             d = r["detail"]
             d["mode_"] = "shapes"
-            if ctx.violation(r["sig"], d) == "violation":
+            if ctx.violation(r["sig"], d, name=getattr(ctx, "replay_name", None)) == "violation":
                 nviol += 1
     if summary is None:
         raise vlib.Infra("shapes replay wrote no summary (driver died?)")
@@ -72,6 +72,10 @@ def part_a(ctx, binary):
     total_ops = {"AppendScalar", "AppendVector", "T", "Tip", "SetIdentity", "AsVector", "AsConstVector", "RAlloc",
                  "svd", "householderBidiagonalization", "gramSchmidt", "Jacobian", "Hessian"}
     for op, cl in per_op.items():
+        if op.startswith("opt.InSituByValue.") or op.startswith("opt.UnknownOption."):
+            if cl != {"reject"}:
+                raise vlib.Infra("unexpected classes for %s: %s" % (op, sorted(cl)))
+            continue
         if "ok" not in cl or (op not in total_ops and "reject" not in cl):
             raise vlib.Infra("vacuous case set for %s: classes %s" % (op, sorted(cl)))
     ctx.log("Shapes: %d cases for %d entry points" % (res.json_count, len(per_op)))
@@ -104,7 +108,7 @@ def run_term(ctx, binary, cases, tag="term"):
         elif r["kind"] == "mismatch":
             d = r["detail"]
             d["mode_"] = "term"
-            verdict = ctx.violation(r["sig"], d)
+            verdict = ctx.violation(r["sig"], d, name=getattr(ctx, "replay_name", None))
             (known_ids if verdict == "known" else bad_ids).add(d["id"])
     if summary is None:
         raise vlib.Infra("term driver wrote no summary")
@@ -144,7 +148,7 @@ def part_b(ctx, binary):
             f.write(line + "\n")
             c = json.loads(line)
             classes[c["class"]] = classes.get(c["class"], 0) + 1
-    need = {"int1x1", "int2x2", "int3x3", "zero", "identity", "nilpotent", "jordan", "rank1", "repeated", "complex",
+    need = {"int1x1", "int2x2", "int3x3", "int4x4", "zero", "identity", "nilpotent", "jordan", "rank1", "repeated", "complex",
             "companion", "nonfinite", "nan", "posinf", "error", "constraints_never", "constraints_only_start",
             "zero_gradient"}
     if not need <= set(classes):
@@ -240,6 +244,7 @@ def replay(ctx, path):
         v = json.load(f)
     d = v["detail"]
     binary = ctx.go_build("shapes")
+    ctx.replay_name = "replayed-" + os.path.basename(path)      # do not overwrite the stored violation files
     if d.get("mode_") == "shapes":
         cases = ctx.path("case.ndjson")
         with open(cases, "w") as f:
@@ -259,3 +264,32 @@ def replay(ctx, path):
     else:
         raise vlib.Infra("cannot replay a violation of kind %s" % d.get("mode_"))
     return ctx.finish(rule="replay of one recorded violation", evaluations=1, distinct_nontrivial=1)
+
+
+MANIFEST = {
+    "engine": "shapes",
+    "spec": "spec/Shapes.tla",
+    "engine_text": "Shapes.tla (preconditions and outcome classes of 110 entry points), Termination.tla (input classes and "
+                   "budgets of the bounded-response contract), TerminationTrace.tla (trace validation); Go driver "
+                   "harness/cmd/shapes (replay on 9 element types x dense/sparse x plain/view; child-process watchdog)",
+    "technique": "TLA+ contract checked and enumerated by TLC; every printed case replayed on the real code and the real "
+                 "outcome class / result shape compared; watchdog event traces of the iterative routines validated by a "
+                 "TLC trace specification",
+    "text": "TLC enumerates every public vector/matrix/Real-scalar operation, the linear-algebra entry points and their "
+            "documented option values over all dimension tuples in 0..3 (0..4 thorough), in- and out-of-range indices, "
+            "permutation arguments and derivative orders 0..3, and prints each case with the outcome class the "
+            "specification demands (ok with result shape | error-or-panic | undecided) - the driver executes each case "
+            "for all nine element types, dense and sparse, on plain objects and on views inside a sentinel-filled parent "
+            "(twice, with different sentinels: any difference is a read outside the view) and reports a silently "
+            "accepted invalid call, a wrong result shape, a rejected valid call or a call that does not return. For "
+            "termination TLC enumerates all 2x2 integer matrices over -2..2, 3x3 over {-1,0,1} (seeded 2000 / all "
+            "19683), structured 4x4 classes, non-finite entries and faulty objectives (NaN, +Inf, error from the k-th "
+            "evaluation, unsatisfiable constraints, zero gradient) with polynomial budgets; every call runs in a child "
+            "process behind a journal, a call over budget is killed and logged as timeout, and TerminationTrace.tla "
+            "accepts the log only if every call is answered within its budget. Bounded-response testing on the "
+            "enumerated classes, not a termination proof.",
+    "note": "Trusted: TLC, CommunityModules Json/Randomization, the Go driver's classification of outcomes, wall-clock "
+            "budgets (6 s + polynomial; a call that exceeds its budget is retried once in a fresh process before it "
+            "counts). Defects of valid calls on views are reported as information (owned by C10).",
+    "design_ref": "DESIGN.md section 5 (C20), section 4 (Shapes.tla, Termination.tla), section 3.1 (crash containment)",
+}
